@@ -80,6 +80,10 @@ def modelCert (s : DS) (ct : CType) (cred : Cred) (url : Str) (kind : KeyKind) :
     s!"200 x509 cn={hexL c.cn} key={boolStr (c.key == 7)} ca={boolStr c.isCA} bc={boolStr c.bcValid} eku={if c.clientAuth then "2" else "-"} verifies={boolStr ((caList s.st.preCAs s.st.ed s.st.signer).contains c.issuer)}"
 
 def modelStep (s : DS) : List String → DS × String
+  | "cfgfile" :: rest =>   -- the same settings, written into a configuration file: what the operator wrote decides
+    match parseCfg rest with
+    | some s' => (s', "ok")
+    | none => (s, "bad-op")
   | "cfg" :: rest =>
     match parseCfg rest with
     | some s' => (s', "ok")
@@ -163,6 +167,10 @@ def judgeCert (s : DS) (mode : String) (login : Str) (pw : Bool) (url : Str) (im
           | _ => "viol issued-but-undecodable"
 
 def judgeStep (s : DS) : List String → DS × String
+  | "cfgfile" :: rest =>
+    match parseCfg rest with
+    | some s' => (s', "ok")
+    | none => (s, "bad-op")
   | "cfg" :: rest =>
     match parseCfg rest with
     | some s' => (s', "ok")
